@@ -457,19 +457,22 @@ static inline TextFamily make_LW() {
   TextFamily f;
   std::vector<unsigned> ns;
   for (unsigned i = 0; i <= 40; i++) ns.push_back(i);
-  for (unsigned i : {63u, 64u, 65u, 66u, 127u, 128u, 129u, 130u, 255u, 256u, 257u, 1023u, 1024u, 1025u, 4095u, 4096u, 4097u, 65535u, 65536u, 65537u}) ns.push_back(i);
+  // every residue modulo 8 and 16 on both sides of the power-of-two sizes (unrolled copy loops have remainder cases)
+  for (unsigned b : {64u, 128u, 256u, 1024u, 4096u})
+    for (unsigned i = b - 9; i <= b + 9; i++) ns.push_back(i);
+  for (unsigned i : {2047u, 2048u, 2049u, 2052u, 65535u, 65536u, 65537u}) ns.push_back(i);
   auto nsp = std::make_shared<std::vector<unsigned>>(ns);
   // shape: 0 array of 1 ; 1 array of "a" ; 2 object k_i:1 ; 3 array of [] ; 4 object k_i:{"k":[i]} ; 5 nested array-in-array wide
   f.meta.name = "LW_wide";
   f.meta.count = ns.size() * 6;
   f.meta.group = "LW";
-  f.meta.rule = "wide containers with n in {0..40,63..66,127..130,255..257,1023..1025,4095..4097; arrays also 65535..65537} children in 6 shapes (exercises the node-copy tails and every count-field width)";
+  f.meta.rule = "wide containers with n in {0..40, b-9..b+9 for b in 64,128,256,1024,4096, 2047..2049, 2052; arrays also 65535..65537} children in 6 shapes (exercises the node-copy tails and every count-field width)";
   f.meta.chunk = 8;
   f.gen = [nsp](uint64_t idx, std::string& out) {
     unsigned shape = (unsigned)(idx % 6);
     unsigned n = (*nsp)[idx / 6];
     out.clear();
-    if (n > 4097 && (shape == 2 || shape == 4)) return false;  // accessor comparison is quadratic for objects
+    if (n > 4200 && (shape == 2 || shape == 4)) return false;  // accessor comparison is quadratic for objects
     auto key = [](unsigned i) { return "\"k" + std::to_string(i) + "\""; };
     switch (shape) {
       case 0: case 1: case 3: {
@@ -505,6 +508,39 @@ static inline TextFamily make_LW() {
         break;
       }
     }
+    return true;
+  };
+  return f;
+}
+
+// LH: huge containers (beyond any bulk-copy threshold): n = 2^k-1, 2^k, 2^k+1 children for k = 16..20
+static inline TextFamily make_LH(unsigned maxk) {
+  TextFamily f;
+  auto nsp = std::make_shared<std::vector<unsigned>>();
+  for (unsigned k = 16; k <= maxk; k++)
+    for (int d = -1; d <= 1; d++) nsp->push_back((1u << k) + d);
+  f.meta.name = "LH_huge";
+  f.meta.count = nsp->size() * 3;
+  f.meta.group = "LH";
+  f.meta.rule = "huge containers with n = 2^k-1, 2^k, 2^k+1 children for k = 16.." + std::to_string(maxk) + " (objects: k <= 19) in 3 shapes: array of integers, array of short strings, object of distinct keys; every element read back (keyed lookups of objects with more than 5000 members: the first 64, the last 64 and every (n/64)-th key)";
+  f.meta.chunk = 1;
+  f.gen = [nsp](uint64_t idx, std::string& out) {
+    unsigned shape = (unsigned)(idx % 3);
+    unsigned n = (*nsp)[idx / 3];
+    out.clear();
+    if (shape == 2 && n > (1u << 19) + 1) return false;
+    out.reserve((size_t)n * 12 + 2);
+    out = shape == 2 ? "{" : "[";
+    for (unsigned i = 0; i < n; i++) {
+      if (i) out += ",";
+      if (shape == 0)
+        out += std::to_string(i);
+      else if (shape == 1)
+        out += "\"s" + std::to_string(i) + "\"";
+      else
+        out += "\"k" + std::to_string(i) + "\":" + std::to_string(i);
+    }
+    out += shape == 2 ? "}" : "]";
     return true;
   };
   return f;
